@@ -51,6 +51,37 @@ def cases(tier, seed):
     ]
     for p in progs:
         add(p, doc, ('scope',))
+    # generated scoping programs: assignments in every position an expression can stand (block items, condition
+    # branches, array and object members, arguments, function bodies, path steps), nested blocks, closures
+    # created before and after re-binding; the result lists what every variable denotes at the end
+    VARS = ['$x', '$y', '$z']
+    def sexpr(d):
+        k = rng.random()
+        if d <= 0 or k < 0.18:
+            return rng.choice(VARS + ['1', '2', '"s"', 'n', 'nothing', '$x + 1', '$y & "!"'])
+        if k < 0.34: return '%s := %s' % (rng.choice(VARS), sexpr(d - 1))
+        if k < 0.5: return sblock(d - 1)
+        if k < 0.6: return '(%s ? %s : %s)' % (rng.choice(['true', 'false', '$x = 1', '$exists($y)']), sexpr(d - 1), sexpr(d - 1))
+        if k < 0.66: return '(%s ? %s)' % (rng.choice(['true', 'false', '$exists($z)']), sexpr(d - 1))
+        if k < 0.74: return '[%s]' % ', '.join(sexpr(d - 1) for _ in range(rng.randint(1, 2)))
+        if k < 0.8: return '{"k": %s}' % sexpr(d - 1)
+        if k < 0.86: return 'function(){%s}()' % sexpr(d - 1)
+        if k < 0.9: return 'function(%s){%s}(%s)' % (rng.choice(VARS), sexpr(d - 1), sexpr(0))
+        if k < 0.94: return 'arr.(%s)' % sexpr(d - 1)
+        if k < 0.97: return '$string(%s)' % sexpr(d - 1)
+        return '(%s) + 1' % sexpr(d - 1)
+    def sblock(d):
+        items = [sexpr(d) for _ in range(rng.randint(1, 3))]
+        return '(%s)' % '; '.join(items)
+    for i in range(900 if tier == 'quick' else 60000):
+        pre = []
+        for v in rng.sample(VARS, rng.randint(0, 3)):
+            pre.append('%s := %s' % (v, rng.choice(['1', '"a"', '[1,2]'])))
+        if rng.random() < 0.4:
+            pre.append('$f := function(){[$x, $y]}')
+        mid = [sexpr(rng.randint(1, 3)) for _ in range(rng.randint(1, 2))]
+        fin = '[%s%s]' % (', '.join('{"v": %s}' % v for v in VARS), ', $f()' if any(p.startswith('$f') for p in pre) else '')
+        add('(%s)' % '; '.join(pre + ['$r := (%s)' % m if rng.random() < 0.3 else m for m in mid] + [fin]), doc, ('scope-gen',))
     # partial application
     for f, call in itertools.product(['$substring(?, 1, ?)', '$substring("hello", ?, ?)', '$append(?, 9)', '$pad(?, 5)', '$power(?, 2)', 'function($a,$b,$c){[$a,$b,$c]}(?, "m", ?)',
                                       '$string(?)', '$substringBefore(?, "-")', '($p := $substringAfter(?, "-"); $p)', '$join(?, ?)', '5(?)', 'nothing(?)', '"s"(?)'],
